@@ -528,41 +528,10 @@ def h_dot(m, func, args, kwargs, out):
 # ---------------------------------------------------------------------------------------------
 
 
-def _dft(vec, n_out, inverse, n):
-    """vec: list of Vals (length <= n, zero-padded); returns n_out outputs of an n-point DFT."""
-    res = []
-    sign = 1.0 if inverse else -1.0
-    for k in range(n_out):
-        acc = None
-        for j, v in enumerate(vec):
-            ang = sign * 2.0 * math.pi * ((j * k) % n) / n
-            c, s = _exact_cis(j * k % n, n, sign)
-            w = Val("lin", c, s)
-            term = v.to_complex() * w
-            acc = term if acc is None else acc + term
-        res.append(acc)
-    return res
-
-
-def _exact_cis(r, n, sign):
-    """cos/sin(sign*2*pi*r/n) as constants; exact rationals where they exist, named atoms else."""
-    ang = sign * 2.0 * math.pi * r / n
-    c, s = math.cos(ang), math.sin(ang)
-
-    def snap(x):
-        for q in (0.0, 1.0, -1.0, 0.5, -0.5):
-            if abs(x - q) < 1e-12:
-                return T.const(q)
-        # irrational: sqrt(3)/2 etc. -> named algebraic constant
-        ctx = V.ctx()
-        a = ctx.named_const_atom(f"ALG[{abs(x):.12g}]", abs(x))
-        return a if x > 0 else T.neg(a)
-
-    return snap(c), snap(s)
-
-
 @handler("aten._fft_r2c.default")
 def h_fft_r2c(m, func, args, kwargs, out):
+    from .cyc import CycVal, zeta_pow
+
     x, dims, norm, onesided = args[0], args[1], args[2], args[3]
     a = m.arr(x)
     if list(dims) not in ([a.ndim - 1], [-1]) or norm != 0:
@@ -571,14 +540,19 @@ def h_fft_r2c(m, func, args, kwargs, out):
     n_out = out.shape[-1]
     res = np.empty(tuple(out.shape), dtype=object)
     for idx in np.ndindex(*a.shape[:-1]):
-        outs = _dft(list(a[idx]), n_out, False, n)
+        lane = [CycVal.lift(v, n) for v in a[idx]]
         for k in range(n_out):
-            res[idx + (k,)] = outs[k]
+            acc = CycVal(n, {})
+            for j, v in enumerate(lane):
+                acc = acc + v.times_zeta(-(j * k))
+            res[idx + (k,)] = acc
     return res
 
 
 @handler("aten._fft_c2r.default")
 def h_fft_c2r(m, func, args, kwargs, out):
+    from .cyc import CycVal
+
     x, dims, norm, last = args[0], args[1], args[2], args[3]
     a = m.arr(x)
     if list(dims) not in ([a.ndim - 1], [-1]):
@@ -586,17 +560,13 @@ def h_fft_c2r(m, func, args, kwargs, out):
     n = last
     res = np.empty(tuple(out.shape), dtype=object)
     for idx in np.ndindex(*a.shape[:-1]):
-        half = list(a[idx])
-        # hermitian extension
-        full = [None] * n
+        half = [CycVal.lift(v, n) for v in a[idx]]
+        full = [half[k] if k < len(half) else half[n - k].conjugate() for k in range(n)]
         for k in range(n):
-            if k < len(half):
-                full[k] = half[k]
-            else:
-                full[k] = half[n - k].conjugate()
-        outs = _dft(full, n, True, n)
-        for k in range(n):
-            v = outs[k].real()
+            acc = CycVal(n, {})
+            for j, v in enumerate(full):
+                acc = acc + v.times_zeta(j * k)
+            v = acc.to_val().real()
             if norm == 2:  # backward: 1/n
                 v = v / n
             elif norm == 1:
@@ -607,6 +577,8 @@ def h_fft_c2r(m, func, args, kwargs, out):
 
 @handler("aten._fft_c2c.default")
 def h_fft_c2c(m, func, args, kwargs, out):
+    from .cyc import CycVal
+
     x, dims, norm, forward = args[0], args[1], args[2], args[3]
     a = m.arr(x)
     if list(dims) not in ([a.ndim - 1], [-1]):
@@ -614,14 +586,17 @@ def h_fft_c2c(m, func, args, kwargs, out):
     n = a.shape[-1]
     res = np.empty(tuple(out.shape), dtype=object)
     for idx in np.ndindex(*a.shape[:-1]):
-        outs = _dft(list(a[idx]), n, not forward, n)
+        lane = [CycVal.lift(v, n) for v in a[idx]]
         for k in range(n):
-            v = outs[k]
+            acc = CycVal(n, {})
+            for j, v in enumerate(lane):
+                acc = acc + v.times_zeta((j * k) if not forward else -(j * k))
             if norm == 2:
-                v = v / n
+                acc = acc / n
             elif norm == 1:
                 raise Unsupported("ortho norm")
-            res[idx + (k,)] = v
+            # forward transforms stay in the cyclotomic form; inverse ones return to ordinary values
+            res[idx + (k,)] = acc if forward else acc.to_val()
     return res
 
 
